@@ -151,6 +151,52 @@ pub fn j_series(s: &Series, leap: &LeapTable, out: &mut Local) {
             if both.len() as i128 != n_items || both.iter().enumerate().any(|(j, e)| (e.time_scale, alpha(e.duration)) != want(j as i128)) {
                 return Err((k, "resumed-iteration-differs", format!("{n_items} items"), format!("{} items", both.len())));
             }
+            // forward adaptors on a fresh and on a partially consumed iterator (nth, skip, step_by, count, last are all
+            // defined through next(); an override must agree), and a clone taken mid-way
+            if n_items <= 4096 {
+                let n = n_items as usize;
+                let item = |j: usize| if (j as i128) < n_items { Some(want(j as i128)) } else { None };
+                let view = |e: Option<Epoch>| e.map(|e| (e.time_scale, alpha(e.duration)));
+                for used in [0usize, 1, n / 2] {
+                    if used > n {
+                        continue;
+                    }
+                    let fresh = || {
+                        let mut it = mk_it();
+                        for _ in 0..used {
+                            it.next();
+                        }
+                        it
+                    };
+                    let rest = n - used;
+                    for kk in [0usize, 1, 2, rest.saturating_sub(1), rest, rest + 1] {
+                        let mut it = fresh();
+                        if view(it.nth(kk)) != item(used + kk) {
+                            return Err((kk as i128, "nth-differs-from-next", format!("after {used} items nth({kk}) = item #{}", used + kk), "another item".into()));
+                        }
+                        if used + kk < n && view(it.next()) != item(used + kk + 1) {
+                            return Err((kk as i128, "nth-leaves-wrong-position", format!("item #{}", used + kk + 1), "another item".into()));
+                        }
+                        if view(fresh().skip(kk).next()) != item(used + kk) {
+                            return Err((kk as i128, "skip-differs-from-next", format!("after {used} items skip({kk}).next() = item #{}", used + kk), "another item".into()));
+                        }
+                        let stepped: Vec<(TimeScale, i128)> = fresh().step_by(kk + 1).take(n + 2).map(|e| (e.time_scale, alpha(e.duration))).collect();
+                        let want_st: Vec<(TimeScale, i128)> = (used..n).step_by(kk + 1).map(|j| want(j as i128)).collect();
+                        if stepped != want_st {
+                            return Err((kk as i128, "step_by-differs-from-next", format!("{} items", want_st.len()), format!("{} items", stepped.len())));
+                        }
+                    }
+                    if fresh().count() != rest || view(fresh().last()) != if rest > 0 { item(n - 1) } else { None } {
+                        return Err((used as i128, "count-or-last-differs-from-next", format!("{rest} items left"), "another count or last item".into()));
+                    }
+                    let it = fresh();
+                    let cl: Vec<(TimeScale, i128)> = it.clone().map(|e| (e.time_scale, alpha(e.duration))).collect();
+                    let orig: Vec<(TimeScale, i128)> = it.map(|e| (e.time_scale, alpha(e.duration))).collect();
+                    if cl != orig || cl.len() != rest {
+                        return Err((used as i128, "clone-differs-from-original", format!("{rest} items left"), format!("{} / {} items", cl.len(), orig.len())));
+                    }
+                }
+            }
         }
         Ok(k)
     });
